@@ -44,7 +44,8 @@ AllDevs == {"alpha_scalar_other_type", "reduce_int_keeps_dtype", "all_any_uint8_
             "mean_dim_none", "prod_dim_scalar_input", "squeeze_dim_non_unit", "reshape_zero_copies", "broadcast_to_minus_one",
             "flatten_zero_size", "narrow_negative_start", "cat_legacy_empty", "chunk_single_not_list", "chunk_count", "split_empty_dim",
             "roll_onnx_edges", "flip_scalar", "pad_scalar", "arange_mixed_scalars", "batch_norm_non_f32",
-            "layer_norm_stats_float32", "unflatten_zero_size"}
+            "layer_norm_stats_float32", "unflatten_zero_size",
+            "any_dim_scalar_input"}      \* the last one is only observable end to end (AtenModule.tla)
 NoDevs == {}
 
 -----------------------------------------------------------------------------
@@ -143,7 +144,7 @@ PairsQ == {<<<<>>, <<>>>>, <<<<3>>, <<>>>>, <<<<>>, <<3>>>>, <<<<3>>, <<2, 3>>>>
 Pairs == IF Wide THEN {<<x, y>> \in Shapes \X Shapes : BroadcastShape(x, y) # NOSHAPE} ELSE PairsQ
 AllDts == {"bool", "u8", "i32", "i64", "f16", "f32", "f64"}
 \* quick tier: the element types whose handling differs in the code (bool / unsigned / narrow int / default int / half / default float)
-SomeDts == IF Wide THEN AllDts ELSE {"bool", "u8", "i32", "i64", "f16", "f32"}
+SomeDts == IF Wide THEN AllDts ELSE {"bool", "u8", "i32", "i64", "f32"}
 NumDts == AllDts \ {"bool"}
 FloatDts == {"f16", "f32", "f64"}
 DimsOf(r) == (-r)..(r - 1)
@@ -486,7 +487,7 @@ RedAten(o, a) ==
 RedDimLists(r) == IF r = 0 THEN {<<>>, <<0>>, <<-1>>}
                   ELSE {<<>>} \cup {<<d>> : d \in DimsOf(r)} \cup (IF r >= 2 THEN {<<0, -1>>, <<-1, 0>>, <<1, 0>>} ELSE {})
                        \cup (IF r >= 3 THEN {<<0, 1, 2>>, <<-2, 2>>} ELSE {})
-RedShapes == IF Wide THEN Shapes \cup {<<2, 2, 2>>} ELSE {<<>>, <<3>>, <<2, 3>>, <<2, 1>>, <<0, 2>>, <<2, 1, 3>>}
+RedShapes == IF Wide THEN Shapes \cup {<<2, 2, 2>>} ELSE {<<>>, <<3>>, <<2, 3>>, <<0, 2>>, <<2, 1, 3>>}
 DtypeKws(o, dt) == {<<>>} \cup (IF IsInt(dt) THEN {<<KW("dtype", DA("i32"))>>, <<KW("dtype", NA)>>} ELSE IF IsFloat(dt) THEN {<<KW("dtype", DA("f64"))>>} ELSE {})
 RedMenu(o) ==
   UNION {
@@ -582,7 +583,7 @@ KeepVariants(sh, tg) == {tg} \cup (IF Len(sh) >= 1 THEN {[i \in 1..Len(tg) |-> I
 Perms(r) == CASE r = 0 -> {<<>>} [] r = 1 -> {<<0>>, <<-1>>} [] r = 2 -> {<<0, 1>>, <<1, 0>>, <<-1, 0>>, <<-1, -2>>}
               [] r = 3 -> {<<0, 1, 2>>, <<2, 0, 1>>, <<1, 2, 0>>, <<2, 1, 0>>, <<0, -1, 1>>, <<-1, -3, -2>>}
               [] OTHER -> {<<0, 1, 2, 3>>, <<3, 2, 1, 0>>, <<0, 2, 1, 3>>, <<-1, 0, -2, 1>>}
-ViewDts == IF Wide THEN AllDts ELSE {"i64", "f32", "bool"}
+ViewDts == IF Wide THEN AllDts ELSE {"i64", "f32"}
 ViewMenu(o) ==
   UNION {
     LET r == Len(sh) x == TA(Mk(dt, sh, 1)) dd == IF r = 0 THEN {0, -1} ELSE DimsOf(r) IN
@@ -748,8 +749,8 @@ IdxAten(o, a) ==
     [] o = "aten::tile" -> LET reps == P(a, 2).data n == Max2(Len(reps), r) IN
          One(TileT(T(dt, PadOnes(sh, n - r), self.data), PadOnes(reps, n - Len(reps))))
     [] o = "aten::constant_pad_nd" -> One(PadT(self, P(a, 2).data, Wrap(dt, IntOr(P(a, 3), 0))))
-IdxDts == IF Wide THEN AllDts ELSE {"i64", "f32", "bool"}
-IdxShapes == Shapes \ {<<>>}
+IdxDts == IF Wide THEN AllDts ELSE {"i64", "f32"}
+IdxShapes == (IF Wide THEN Shapes ELSE {<<0>>, <<1>>, <<3>>, <<2, 3>>, <<2, 1>>, <<0, 2>>, <<2, 1, 3>>, <<1, 2, 0>>}) \ {<<>>}
 SameButAxis(sh, ax, n) == [sh EXCEPT ![ax + 1] = n]
 IndexFor(sh, ax, p) ==      \* an int64 index tensor of shape sh whose entries are valid positions < n (n >= 1)
   LET n == p IN T("i64", sh, [k \in 1..Numel(sh) |-> (k * 2 + 1) % n])
@@ -802,7 +803,7 @@ IdxMenu(o) ==
       [] o = "aten::constant_pad_nd" ->
            {<<x, LA(l)>> \o v : l \in {<<>>, <<1, 0>>, <<0, 2>>, <<1, 1>>, <<-1, 0>>, <<0, -1>>, <<1, 0, 0, 1>>, <<-1, 1, 2, 0>>, <<0, 0, 1, 1>>, <<1, 0, 0, 0, 0, 1>>},
                                 v \in (IF Wide THEN {<<>>} \cup {<<s>> : s \in ScalarsFor(dt)} ELSE {<<>>, <<IA(IF dt = "bool" THEN 1 ELSE 2)>>})}
-    : dt \in IdxDts, sh \in (IF o \in {"aten::index_select", "aten::flip", "aten::roll", "aten::repeat", "aten::tile", "aten::constant_pad_nd", "aten::stack"} THEN Shapes ELSE IdxShapes)}
+    : dt \in IdxDts, sh \in (IF o \in {"aten::index_select", "aten::flip", "aten::roll", "aten::repeat", "aten::tile", "aten::constant_pad_nd", "aten::stack"} THEN IdxShapes \cup {<<>>} ELSE IdxShapes)}
 
 -----------------------------------------------------------------------------
 (* ===== family "create" ===== *)
@@ -1044,6 +1045,7 @@ NNMenu(o) ==
 AllFamilies == {"binary", "unary", "select", "reduce", "view", "index", "create", "matmul", "nn"}
 F_binary == {"binary"}  F_unary == {"unary"}  F_select == {"select"}  F_reduce == {"reduce"}  F_view == {"view"}
 F_index == {"index"}  F_create == {"create"}  F_matmul == {"matmul"}  F_nn == {"nn"}
+G_a == {"binary"}  G_b == {"reduce"}  G_c == {"index"}  G_d == {"view", "select"}  G_e == {"unary", "create", "matmul", "nn"}
 FamilyOps(f) == CASE f = "binary" -> BinOps [] f = "unary" -> UnOps [] f = "select" -> SelOps [] f = "reduce" -> RedOps
                   [] f = "view" -> ViewOps [] f = "index" -> IdxOps [] f = "create" -> CreateOps [] f = "matmul" -> MatOps
                   [] f = "nn" -> NNOps [] OTHER -> {}
